@@ -82,7 +82,9 @@ void procs_gen(plan *p, uint64_t seed, const char *cfg)
         if (!on[4]) npq = 0;
         if (!on[5]) ncond = 0;
     }
-    if (ncond > 0 && nres == 0 && npool == 0 && nbuf == 0 && vrng_chance(&r, 2, 3)) nres = 1;   /* something to observe */
+    if (ncond > 0 && nres == 0 && npool == 0 && nbuf == 0 && noq == 0 && vrng_chance(&r, 3, 4)) {   /* something to observe */
+        switch (vrng_below(&r, 5)) { case 0: case 1: nres = 1; break; case 2: npool = 1; break; case 3: nbuf = 1; break; default: noq = 1; break; }
+    }
     static const int64_t starts[] = { 0, 0, 0, 0, -8, 40 };
     plan_add(p, "CFG", 8, (int64_t)(np - 1), (int64_t)nres, (int64_t)npool, (int64_t)nbuf, (int64_t)noq, (int64_t)npq, (int64_t)ncond, starts[vrng_below(&r, 6)]);
 
@@ -107,6 +109,8 @@ void procs_gen(plan *p, uint64_t seed, const char *cfg)
         if (nres) plan_add(p, "SUB", 3, (int64_t)c, (int64_t)(g_res0 + (int)vrng_below(&r, (uint64_t)nres)), (int64_t)vrng_below(&r, 2));
         if (npool && vrng_chance(&r, 2, 3)) plan_add(p, "SUB", 3, (int64_t)c, (int64_t)(g_pool0 + (int)vrng_below(&r, (uint64_t)npool)), (int64_t)vrng_below(&r, 2));
         if (nbuf && vrng_chance(&r, 2, 3)) plan_add(p, "SUB", 3, (int64_t)c, (int64_t)(g_buf0 + 2 * (int)vrng_below(&r, (uint64_t)nbuf)), (int64_t)vrng_below(&r, 2));
+        if (nbuf && vrng_chance(&r, 1, 2)) plan_add(p, "SUB", 3, (int64_t)c, (int64_t)(g_buf0 + 2 * (int)vrng_below(&r, (uint64_t)nbuf) + 1), (int64_t)vrng_below(&r, 2));
+        if (noq && vrng_chance(&r, 2, 3)) plan_add(p, "SUB", 3, (int64_t)c, (int64_t)(g_buf0 + 2 * nbuf + 2 * (int)vrng_below(&r, (uint64_t)noq)), (int64_t)vrng_below(&r, 2));
     }
     const int nhev = m_wait ? (int)vrng_below(&r, 4) : 0;
     for (int e = 0; e < nhev; e++) plan_add(p, "HEV", 3, (int64_t)e, g_dt(&r, tmode) + (int64_t)(4 * vrng_below(&r, 3)), g_prio(&r, pmode));
@@ -201,7 +205,8 @@ void procs_gen(plan *p, uint64_t seed, const char *cfg)
                     int kind = PR_VAR_GE;
                     const unsigned z = (unsigned)vrng_below(&r, 10);
                     if (z < 4) kind = PR_VAR_GE; else if (z < 6 && nres) kind = PR_RES_FREE; else if (z < 7 && npool) kind = PR_POOL_AVAIL_GE;
-                    else if (z < 8 && nbuf) kind = PR_BUF_LEVEL_GE; else if (z < 9) kind = PR_FALSE; else kind = PR_VAR_GE;
+                    else if (z < 8 && nbuf) kind = vrng_chance(&r, 1, 2) ? PR_BUF_LEVEL_GE : PR_BUF_SPACE_GE; else if (z < 9) kind = PR_FALSE; else kind = PR_VAR_GE;
+                    if (noq && vrng_chance(&r, 1, 5)) kind = PR_OQ_LEN_GE;
                     plan_add(p, "CWAIT", 5, I, (int64_t)vrng_below(&r, (uint64_t)ncond), (int64_t)kind, (int64_t)vrng_below(&r, 3), (int64_t)(1 + vrng_below(&r, 3)));
                     break; }
                 case K_CSIG: plan_add(p, "CSIG", 2, I, (int64_t)vrng_below(&r, (uint64_t)ncond)); break;
